@@ -531,6 +531,11 @@ __CPROVER_ensures((__CPROVER_return_value == 0 && !xv_lower_dead && !__CPROVER_o
 /* success leaves errno alone -- unless name resolution was driven in this very call (xcm_dns_query_process sits outside the
  * errno bracket of try_establish and c-ares does socket I/O) */
 __CPROVER_ensures((__CPROVER_return_value == 0 && !BT_OLD_IS(s, resolving)) ==> xv_errno == __CPROVER_old(xv_errno))
+#ifdef XB_FINISH_LITERAL
+/* the text of contracts/framing.h verbatim (diagnostic only, no job defines this: it fails on the path resolving -> ready in one call) */
+__CPROVER_ensures((__CPROVER_return_value == 0 && !xv_lower_dead && !__CPROVER_old(xv_lower_dead) && xv_errno == __CPROVER_old(xv_errno)) || \
+                  (__CPROVER_return_value == -1 && xv_errno > 0 && (xv_errno != EAGAIN ==> xv_lower_dead)))
+#endif
 /* PO[C06] btcp_finish.reports_state: ready <=> 0; resolving/connecting => EAGAIN; bad => the stored errno; closed => EPIPE */
 __CPROVER_ensures((__CPROVER_return_value == 0) == BT_IS(s, ready))
 __CPROVER_ensures((BT_IS(s, resolving) || BT_IS(s, connecting)) ==> xv_errno == EAGAIN)
